@@ -302,15 +302,44 @@ def r5_type_extension_order(ctx, rep):
 BLOCK_SCOPED_ARMS = ["ATTRIB_RE", "TYPE_RE", "INTERFACE_RE", "ENUM_RE", "VARIABLE_RE"]
 
 
+def block_counter(cs) -> str:
+    """the loop-carried name that counts open BLOCK constructs: the one the BLOCK arm increments"""
+    for st in ast.walk(ast.Module(body=cs.arm_by_regex("BLOCK_RE").body, type_ignores=[])):
+        if isinstance(st, ast.AugAssign) and isinstance(st.op, ast.Add) and isinstance(st.target, ast.Name):
+            return st.target.id
+    raise AnalysisError("the BLOCK arm increments no counter")
+
+
+def _outside_block(text: str, ctr: str) -> bool:
+    t = text.replace(" ", "")
+    return t in (f"{ctr}==0", f"0=={ctr}", f"not{ctr}", f"{ctr}<1", f"{ctr}<=0", f"not({ctr}!=0)", f"not({ctr}>0)", f"not({ctr})",
+                 f"not({ctr}>=1)")
+
+
+def block_guard_in_test(arm, ctr: str) -> bool:
+    """the arm's own test requires that no BLOCK is open (inside a BLOCK the statement falls through to the later arms)"""
+    return any(_outside_block(r, ctr) for r in arm.residual)
+
+
+def block_guard_in_body(cs, arm, ctr: str) -> bool:
+    """inside a BLOCK the arm consumes the statement without registering anything: every construction / list update of the
+    body runs under a condition that implies that no BLOCK is open"""
+    evs = [e for e in astq.trace_block(arm.body, cs.fn) if e.kind == "call" and isinstance(e.node.func, ast.Attribute)
+           and e.node.func.attr in ("append", "extend", "update", "setdefault") and ast.unparse(e.node.func.value).startswith("self.")]
+    evs += [e for e in astq.trace_block(arm.body, cs.fn) if e.kind == "assign" and (e.target or "").startswith("self.")]
+    return bool(evs) and all(any(_outside_block(c, ctr) for c in e.cond_texts()) for e in evs)
+
+
 def r6_block_scope(ctx, rep):
     """declarations inside a BLOCK construct are local to it: they must not be entered into the
     enclosing procedure's lists (sibling agreement of the `blocklevel == 0` guard)."""
     py, cs = ctx.py, ctx.cascade
+    ctr = block_counter(cs)
     for name in BLOCK_SCOPED_ARMS:
         a = cs.arm_by_regex(name)
-        ok = any(r.replace(" ", "") == "blocklevel==0" for r in a.residual)
+        ok = block_guard_in_test(a, ctr) or block_guard_in_body(cs, a, ctr)
         rep.ob(f"arm {name} is disabled inside BLOCK constructs", ok,
-               "guarded by blocklevel == 0" if ok else
+               f"guarded by {ctr} == 0" if ok else
                f"the {name} arm no longer tests `blocklevel == 0` (its sibling declaration arms do): an entity declared "
                f"inside a BLOCK construct is registered in the enclosing procedure and shadows the host-associated "
                f"entity of the same name there", py.nloc(a.test))
@@ -318,18 +347,18 @@ def r6_block_scope(ctx, rep):
         out = []
         for ev in astq.trace_block(arm.body, cs.fn):
             n = ev.node
-            if ev.kind == "assign" and isinstance(n, ast.AugAssign) and isinstance(n.target, ast.Name) and n.target.id == "blocklevel" \
+            if ev.kind == "assign" and isinstance(n, ast.AugAssign) and isinstance(n.target, ast.Name) and n.target.id == ctr \
                     and isinstance(n.op, op) and isinstance(n.value, ast.Constant) and n.value.value == 1:
                 if not need_block_test or any("'block'" in c and not c.startswith("not") for c in ev.cond_texts_x(cs.fn)):
                     out.append(ev)
         return out
     b = cs.arm_by_regex("BLOCK_RE")
-    ok = "blocklevel" in b.writes and bool(steps(b, ast.Add, False))
+    ok = ctr in b.writes and bool(steps(b, ast.Add, False))
     rep.ob("BLOCK opens a nesting level", ok, "", py.nloc(b.test))
     e = cs.arm_by_regex("END_RE")
     ok = bool(steps(e, ast.Sub, True))
     rep.ob("END BLOCK closes a nesting level", ok, "", py.nloc(e.test))
-    init = [s for s in cs.fn.body if isinstance(s, ast.Assign) and ast.unparse(s.targets[0]) == "blocklevel"]
+    init = [s for s in cs.fn.body if isinstance(s, ast.Assign) and ast.unparse(s.targets[0]) == ctr]
     ok = len(init) == 1 and ast.unparse(init[0].value) == "0"
     rep.ob("nesting level starts at 0", ok, "", py.nloc(init[0]) if init else py.nloc(cs.fn))
 
